@@ -3,11 +3,13 @@
 package home
 
 import (
+	"bufio"
 	"context"
 	"crypto/tls"
 	"encoding/json"
 	"errors"
 	"fmt"
+	"net"
 	"net/http"
 	"net/http/httptest"
 	"os"
@@ -15,6 +17,7 @@ import (
 	"sort"
 	"regexp"
 	"strings"
+	"sync"
 	"testing"
 	"testing/fstest"
 	"time"
@@ -29,6 +32,8 @@ import (
 	"github.com/AdguardTeam/golibs/netutil"
 	"github.com/NYTimes/gziphandler"
 	"golang.org/x/crypto/bcrypt"
+	"golang.org/x/net/http2"
+	"golang.org/x/net/http2/h2c"
 )
 
 // ---------------------------------------------------------------------------
@@ -98,7 +103,7 @@ func c11HdrClasses(q c11Req) (cl []string) {
 	}
 	switch q.method {
 	case "GET", "POST", "PUT", "DELETE":
-	default:
+	case "HEAD", "OPTIONS", "PATCH", "TRACE", "CONNECT", "PROPFIND", "get":
 		cl = append(cl, "method-"+q.method)
 	}
 	return cl
@@ -217,6 +222,7 @@ type c11Chain struct {
 	method string // for KRegister
 	coq    string
 	wrap   func(h http.HandlerFunc) http.Handler // nil: through the real httpRegister
+	mux    http.Handler                           // round 4: the route is already registered (real httpRegister, wd.handler) on this mux
 }
 
 // c11Tokens: the cookie values of the shapes (the keys of Auth.sessions are
@@ -269,6 +275,46 @@ type c11World struct {
 	auth  *Auth
 	noUsr *Auth
 	users []webUser
+	// what the probe handler saw (reset before each request)
+	mu          sync.Mutex
+	ran, locked bool
+	seenMethod  string
+}
+
+// handler is the probe: it records that it ran, the method it was given, and
+// whether globalContext.controlLock is held while it runs (TryLock fails).
+func (wd *c11World) handler(w http.ResponseWriter, r *http.Request) {
+	wd.mu.Lock()
+	defer wd.mu.Unlock()
+	wd.ran, wd.seenMethod = true, r.Method
+	if globalContext.controlLock.TryLock() {
+		globalContext.controlLock.Unlock()
+	} else {
+		wd.locked = true
+	}
+	w.WriteHeader(http.StatusOK)
+}
+
+// c11Modifying: the methods of a state-changing route, by the property's
+// wording (the declared method of the route, never the one sent).
+func c11Modifying(declared string) bool {
+	return declared == "POST" || declared == "PUT" || declared == "DELETE"
+}
+
+// c11GateMonitor: "state-changing endpoints accept only their declared method
+// and a JSON content type", evaluated on what the implementation did; plus:
+// a state-changing handler runs under the control lock.
+func c11GateMonitor(declared string, q c11Req, locked bool) (ok bool, msg, key string) {
+	if q.method != declared {
+		return false, fmt.Sprintf("handler registered for %s ran for the method %q (content type %q, body %d, lock held %v)", declared, q.method, q.ctype, q.body, locked), "c11-method"
+	}
+	if c11Modifying(declared) && !(q.ctype == "application/json" && q.body != 0 || q.ctype == "" && q.body == 0) {
+		return false, fmt.Sprintf("state-changing handler (%s) ran for content type %q body %d", declared, q.ctype, q.body), "c11-content-type"
+	}
+	if c11Modifying(declared) && !locked {
+		return false, fmt.Sprintf("state-changing handler (%s) ran without the control lock", declared), "c11-control-lock"
+	}
+	return true, "", ""
 }
 
 func (wd *c11World) setEnv(e c11Env) {
@@ -443,6 +489,51 @@ func c11Public(p string) bool {
 	return false
 }
 
+func c11Obs(ran, locked bool, status int, loc int64, sess string) string {
+	return fmt.Sprintf("{| C11.o_ran := %s; C11.o_locked := %s; C11.o_status := %s; C11.o_loc := %s; C11.o_sess := %s |}",
+		vfBool(ran), vfBool(locked), vfZ(int64(status)), vfZ(loc), sess)
+}
+
+// c11MethodVariants: other spellings of the declared method M that a client
+// can put on the request line (any token is a method for net/http): case
+// variants, an extension, a prefix, and methods that merely look related.
+func c11MethodVariants(m string) []string {
+	lower := strings.ToLower(m)
+	return []string{lower, m[:1] + lower[1:], lower[:1] + m[1:], m + "X", m[:len(m)-1], "PATCH", "CONNECT",
+		map[string]string{"GET": "POST", "POST": "GET", "PUT": "POST", "DELETE": "GET"}[m]}
+}
+
+func c11GateClasses(c c11Chain, q c11Req, ran, locked bool, status int) (cl []string) {
+	if c.method == "" {
+		return nil
+	}
+	switch {
+	case q.method == c.method:
+		cl = append(cl, "method-declared")
+	case strings.EqualFold(q.method, c.method):
+		cl = append(cl, "method-case-variant")
+	case strings.HasPrefix(q.method, c.method) || (q.method != "" && strings.HasPrefix(c.method, q.method)):
+		cl = append(cl, "method-lookalike")
+	case q.method == "":
+		cl = append(cl, "method-empty")
+	}
+	if q.method != c.method && status == 405 {
+		cl = append(cl, "gate-405-authenticated")
+	}
+	if ran && locked {
+		cl = append(cl, "ran-locked")
+	} else if ran {
+		cl = append(cl, "ran-unlocked")
+	}
+	if q.ctype != "" && q.ctype != "application/json" && strings.EqualFold(q.ctype, "application/json") {
+		cl = append(cl, "ctype-case-variant")
+	}
+	if q.ctype == "text/plain" {
+		cl = append(cl, "ctype-text-plain")
+	}
+	return cl
+}
+
 // c11Probe sends one request through chain c and emits the case.
 func (wd *c11World) probe(out *vfOut, c c11Chain, e c11Env, q c11Req) {
 	wd.setEnv(e)
@@ -455,17 +546,15 @@ func (wd *c11World) probe(out *vfOut, c c11Chain, e c11Env, q c11Req) {
 	} else {
 		e.users = false // no Auth object: no user list either
 	}
-	ran := false
-	seenPath := ""
-	h := func(w http.ResponseWriter, r *http.Request) {
-		ran = true
-		seenPath = r.URL.Path
-		w.WriteHeader(http.StatusOK)
-	}
+	wd.ran, wd.locked, wd.seenMethod = false, false, ""
+	h := wd.handler
 	var hd http.Handler
-	if c.wrap != nil {
+	switch {
+	case c.mux != nil:
+		hd = c.mux
+	case c.wrap != nil:
 		hd = c.wrap(h)
-	} else {
+	default:
 		// the REAL registration helper on a fresh mux
 		globalContext.mux = http.NewServeMux()
 		httpRegister(c.method, q.path, h)
@@ -482,11 +571,11 @@ func (wd *c11World) probe(out *vfOut, c c11Chain, e c11Env, q c11Req) {
 		out.Class("discarded-second-boundary")
 		return
 	}
+	ran, locked := wd.ran, wd.locked
 	status := rec.Code
 	loc := c11LocClass(rec.Header().Get("Location"))
 	envCoq := c11EnvCoq(e, a != nil, now, ttl, q)
-	obs := fmt.Sprintf("{| C11.o_ran := %s; C11.o_status := %s; C11.o_loc := %s; C11.o_sess := %s |}",
-		vfBool(ran), vfZ(int64(status)), vfZ(loc), c11STable(a))
+	obs := c11Obs(ran, locked, status, loc, c11STable(a))
 	// the property, directly
 	authed := a != nil && (q.cookie == 3 || q.cookie == 4 || (q.cookie == 0 && c11BasicRight(q)))
 	public := c11Public(q.path)
@@ -502,15 +591,17 @@ func (wd *c11World) probe(out *vfOut, c c11Chain, e c11Env, q c11Req) {
 			monOK, msg, key = false, fmt.Sprintf("unauthenticated request answered %d (Location class %d), want 403 or a redirect to the login page", status, loc), "c11-refusal-shape"
 		}
 	}
-	if c.wrap == nil && ran {
-		if q.method != c.method {
-			monOK, msg, key = false, fmt.Sprintf("handler registered for %s ran for %s", c.method, q.method), "c11-method"
+	// round 4: every chain with a method gate (httpRegister, login, install)
+	if c.method != "" && ran {
+		if ok, m, k := c11GateMonitor(c.method, q, locked); !ok {
+			monOK, msg, key = false, m+fmt.Sprintf(" [chain %s, request %+v]", c.name, q), k
 		}
-		if (q.method == "POST" || q.method == "PUT" || q.method == "DELETE") && !(q.ctype == "application/json" && q.body != 0 || q.ctype == "" && q.body == 0) {
-			monOK, msg, key = false, fmt.Sprintf("state-changing handler ran for content type %q body %d", q.ctype, q.body), "c11-content-type"
+		if wd.seenMethod != q.method {
+			monOK, msg, key = false, fmt.Sprintf("the handler saw the method %q for a request sent as %q", wd.seenMethod, q.method), "c11-method-rewritten"
 		}
 	}
 	classes := []string{"chain-" + strings.Fields(c.name)[0]}
+	classes = append(classes, c11GateClasses(c, q, ran, locked, status)...)
 	if ran {
 		classes = append(classes, "ran")
 	} else {
@@ -546,7 +637,6 @@ func (wd *c11World) probe(out *vfOut, c c11Chain, e c11Env, q c11Req) {
 	if e.https > 0 {
 		classes = append(classes, "https")
 	}
-	_ = seenPath
 	out.Emit(vfCase{
 		Coq:        vfApp("C11.CProbe", envCoq, sessCoq, c.coq, c11CoqReq(q, e.users), obs),
 		Nontrivial: !ran, MonitorOK: monOK, MonitorMsg: msg, FindingKey: key, Classes: classes,
@@ -659,8 +749,8 @@ func (wd *c11World) boot(out *vfOut, users bool, db int, c c11Chain, q c11Req) {
 	if a != nil {
 		ttl = a.sessionTTL
 	}
-	ran := false
-	h := func(w http.ResponseWriter, r *http.Request) { ran = true; w.WriteHeader(http.StatusOK) }
+	wd.ran, wd.locked, wd.seenMethod = false, false, ""
+	h := wd.handler
 	var hd http.Handler
 	if c.wrap != nil {
 		hd = c.wrap(h)
@@ -680,11 +770,11 @@ func (wd *c11World) boot(out *vfOut, users bool, db int, c c11Chain, q c11Req) {
 		out.Class("discarded-second-boundary")
 		return
 	}
+	ran := wd.ran
 	status, loc := rec.Code, c11LocClass(rec.Header().Get("Location"))
 	e := c11Env{users: users}
 	envCoq := c11EnvCoq(e, a != nil, now, ttl, q)
-	obs := fmt.Sprintf("{| C11.o_ran := %s; C11.o_status := %s; C11.o_loc := %s; C11.o_sess := %s |}",
-		vfBool(ran), vfZ(int64(status)), vfZ(loc), c11STable(a))
+	obs := c11Obs(ran, wd.locked, status, loc, c11STable(a))
 	authed := q.cookie == 3 || q.cookie == 4 || (q.cookie == 0 && c11BasicRight(q))
 	monOK, msg, key := true, "", ""
 	if panicked != nil {
@@ -721,6 +811,7 @@ type c11Route struct {
 	Method  string `json:"method"`
 	Chain   []struct {
 		Kind string `json:"kind"`
+		Arg  string `json:"arg"`
 	} `json:"chain"`
 	Pos  string `json:"pos"`
 	Func string `json:"func"`
@@ -1005,6 +1096,400 @@ func c11FindCases(out *vfOut, wd *c11World, rnd *vfRand) {
 	}
 }
 
+// ---------------------------------------------------------------------------
+// Round 4 (H): the method token against real registrations and over the wire.
+
+// c11MuxMethod: a request WITH a valid cookie whose method is another
+// spelling of the route's declared one, through a real mux with the real
+// handler: ensure must answer 405; anything else means the method gate let it
+// through (the real handler is bound to a zero receiver: usually a panic).
+func c11MuxMethod(out *vfOut, mux *http.ServeMux, what string, q c11Req, pos, declared string) {
+	rec := httptest.NewRecorder()
+	req := c11Build(q)
+	req.RequestURI = q.path
+	panicked := any(nil)
+	func() {
+		defer func() { panicked = recover() }()
+		mux.ServeHTTP(rec, req)
+	}()
+	status := rec.Code
+	refused := panicked == nil && status == http.StatusMethodNotAllowed
+	monOK, msg, key := true, "", ""
+	if !refused {
+		body := rec.Body.String()
+		if len(body) > 60 {
+			body = body[:60]
+		}
+		monOK, key = false, "c11-method"
+		msg = fmt.Sprintf("%s: %s %s (declared %s at %s) with a valid session cookie and a %s body was not answered 405: status %d, body %q, panic %v: the handler of a route accepts a method other than its declared one",
+			what, q.method, q.path, declared, pos, q.ctype, status, body, panicked)
+	}
+	out.Emit(vfCase{
+		Coq: vfApp("C11.CMux", vfBool(false), vfBool(!refused)), Key: vfHash(what, q), Nontrivial: true,
+		MonitorOK: monOK, MonitorMsg: msg, FindingKey: key, Classes: []string{what, "method-case-variant"},
+		Desc: map[string]any{"what": what, "request": fmt.Sprintf("%+v", q), "declared": declared, "status": status, "registered_at": pos},
+	})
+}
+
+// c11Wire: request lines written by hand to a real net/http server that
+// serves mux the way web.start does.  Everything else as in probe.
+func c11Wire(out *vfOut, wd *c11World, mux http.Handler, regMethod map[string]string, pats []string, rnd *vfRand) {
+	srv := httptest.NewServer(h2c.NewHandler(withMiddlewares(mux, limitRequestBody), &http2.Server{}))
+	defer srv.Close()
+	normal := c11Env{users: true}
+	pick := []string{}
+	for _, want := range []string{"POST", "PUT", "DELETE", "GET"} {
+		for _, p := range pats {
+			if regMethod[p] == want {
+				pick = append(pick, p)
+				break
+			}
+		}
+	}
+	for i := 0; i < 2 && len(pats) > 0; i++ {
+		pick = append(pick, pats[rnd.Intn(len(pats))])
+	}
+	type shape struct {
+		m, ct string
+	}
+	for _, p := range pick {
+		m := regMethod[p]
+		vs := c11MethodVariants(m)
+		shapes := []shape{{m, "application/json"}, {m, "text/plain"}, {vs[0], "text/plain"}, {vs[1], "text/plain"}, {vs[2], "text/plain"},
+			{vs[3], "text/plain"}, {vs[4], "application/json"}, {"PATCH", "text/plain"}, {vs[0], "application/json"}}
+		for _, sh := range shapes {
+			q := c11Req{method: sh.m, path: p, ctype: sh.ct, body: 1, cookie: 3}
+			c := c11Chain{name: "wire " + m, method: m, coq: vfApp("C11.KRegister", vfBytes(m))}
+			wd.setEnv(normal)
+			a := globalContext.auth
+			c12AlignSecond()
+			now := time.Now().Unix()
+			sessCoq := wd.resetSessions(a, uint32(now))
+			wd.mu.Lock()
+			wd.ran, wd.locked, wd.seenMethod = false, false, ""
+			wd.mu.Unlock()
+			conn, err := net.Dial("tcp", srv.Listener.Addr().String())
+			if err != nil {
+				wd.t.Fatal(err)
+			}
+			_ = conn.SetDeadline(time.Now().Add(20 * time.Second))
+			fmt.Fprintf(conn, "%s %s HTTP/1.1\r\nHost: agh.example\r\nCookie: %s=%s\r\nContent-Type: %s\r\nContent-Length: 7\r\n\r\n{\"a\":1}",
+				q.method, q.path, sessionCookieName, c11Tokens[q.cookie], q.ctype)
+			resp, err := http.ReadResponse(bufio.NewReader(conn), nil)
+			status := 0
+			if err == nil {
+				status = resp.StatusCode
+				_ = resp.Body.Close()
+			}
+			_ = conn.Close()
+			if err != nil {
+				out.Note("wire-no-response", fmt.Sprintf("%+v: %v", q, err))
+				continue
+			}
+			if time.Now().Unix() != now {
+				out.Class("discarded-second-boundary")
+				continue
+			}
+			wd.mu.Lock()
+			ran, locked, seen := wd.ran, wd.locked, wd.seenMethod
+			wd.mu.Unlock()
+			loc := c11LocClass(resp.Header.Get("Location"))
+			monOK, msg, key := true, "", ""
+			if ran {
+				if ok, mm, k := c11GateMonitor(m, q, locked); !ok {
+					monOK, msg, key = false, "over the wire: "+mm+fmt.Sprintf(" [%s %s]", q.method, q.path), k
+				}
+				if seen != q.method {
+					monOK, msg, key = false, fmt.Sprintf("over the wire: the handler saw the method %q for the request line %q", seen, q.method+" "+q.path), "c11-method-rewritten"
+				}
+			}
+			classes := append([]string{"chain-wire", "wire"}, c11GateClasses(c, q, ran, locked, status)...)
+			if ran {
+				classes = append(classes, "ran")
+			} else {
+				classes = append(classes, fmt.Sprintf("status-%d", status))
+			}
+			out.Emit(vfCase{
+				Coq: vfApp("C11.CProbe", c11EnvCoq(normal, true, now, a.sessionTTL, q), sessCoq, c.coq, c11CoqReq(q, true),
+					c11Obs(ran, locked, status, loc, c11STable(a))),
+				Key:        vfHash("wire", q),
+				Nontrivial: !ran, MonitorOK: monOK, MonitorMsg: msg, FindingKey: key, Classes: classes,
+				Desc: map[string]any{"kind": "over the wire", "request_line": q.method + " " + q.path + " HTTP/1.1", "declared": m,
+					"content_type": q.ctype, "status": status, "ran": ran, "locked": locked},
+			})
+		}
+	}
+}
+
+// ---------------------------------------------------------------------------
+// Round 4 (G): start-up with a populated sessions.db.  C11's cookie classes
+// include "expired": here the expired cookie is one whose session came into
+// Auth.sessions through the real InitAuth -> loadSessions, next to others that
+// are still good.  Nothing but the real clock may make it expire (writing to
+// the loaded session object would hide how the loader built it), so the
+// scenarios of a batch are prepared together with expiries a few seconds
+// ahead, loaded, and requested once the clock has passed those instants: one
+// bounded wait per batch.  No duration is judged: the model gets the clock
+// readings (second of the load, second of each request) as inputs, and a
+// scenario in which a reading changed under our feet is dropped.
+
+type c11Rec struct {
+	raw    string
+	user   string
+	off    int64 // expiry = T0 + off
+	expire uint32
+}
+
+type c11Scen struct {
+	name string
+	recs []c11Rec
+	a    *Auth
+	now0 int64
+	ok   bool
+	load string // Auth.sessions as found after the load
+}
+
+const c11SoonOff = 3
+
+func c11ReloadBatch(out *vfOut, wd *c11World, scens []*c11Scen, chains []c11Chain, rnd *vfRand) {
+	t := wd.t
+	ttl := uint32(3600)
+	dir := t.TempDir()
+	c12AlignSecond()
+	t0 := time.Now().Unix()
+	// the files, written by the real Auth (addSession is what newCookie calls)
+	for i, sc := range scens {
+		fn := filepath.Join(dir, fmt.Sprintf("sessions-%d.db", i))
+		a := InitAuth(fn, wd.users, ttl, nil, netutil.SliceSubnetSet(nil))
+		if a == nil {
+			t.Fatal("InitAuth failed while preparing sessions.db")
+		}
+		for j := range sc.recs {
+			r := &sc.recs[j]
+			r.expire = uint32(t0 + r.off)
+			a.addSession([]byte(r.raw), &session{userName: r.user, expire: r.expire})
+		}
+		a.Close()
+	}
+	// "the process starts": the real InitAuth on each file
+	for i, sc := range scens {
+		fn := filepath.Join(dir, fmt.Sprintf("sessions-%d.db", i))
+		c12AlignSecond()
+		sc.now0 = time.Now().Unix()
+		sc.a = InitAuth(fn, wd.users, ttl, nil, netutil.SliceSubnetSet(nil))
+		if sc.a == nil {
+			t.Fatal("InitAuth failed on a sessions.db it has written itself")
+		}
+		defer sc.a.Close()
+		sc.ok = time.Now().Unix() == sc.now0
+		sc.load = c11STable(sc.a)
+	}
+	// let the clock pass the near expiries
+	for time.Now().Unix() < t0+c11SoonOff {
+		time.Sleep(20 * time.Millisecond)
+	}
+	guarded := []c11Chain{chains[0], chains[1], chains[4], chains[len(chains)-1]}
+	for _, sc := range scens {
+		if !sc.ok {
+			out.Class("reload-discarded-second-boundary")
+			continue
+		}
+		globalContext.auth, globalContext.firstRun, globalContext.web = sc.a, false, &webAPI{}
+		// cookies: every stored token, the near-expiry ones first and once
+		// more at the end (by then deleted), an unknown one, another spelling
+		order := []int{}
+		for j, r := range sc.recs {
+			if r.off == c11SoonOff {
+				order = append(order, j)
+			}
+		}
+		for j, r := range sc.recs {
+			if r.off != c11SoonOff {
+				order = append(order, j)
+			}
+		}
+		type ck struct {
+			val string
+			rec int // index into recs, -1: not the spelling of any stored token
+		}
+		cks := []ck{}
+		for _, j := range order {
+			cks = append(cks, ck{fmt.Sprintf("%x", sc.recs[j].raw), j})
+		}
+		if len(order) > 0 {
+			cks = append(cks, ck{fmt.Sprintf("%x", sc.recs[order[0]].raw), order[0]}, ck{strings.ToUpper(fmt.Sprintf("%x", sc.recs[order[len(order)-1]].raw)), -1})
+		}
+		cks = append(cks, ck{"feedfeed", -1})
+		// which stored record a cookie value is the token of: the map is
+		// keyed by hex.EncodeToString, lower case (an upper-case spelling
+		// without letters is the same string)
+		for i := range cks {
+			cks[i].rec = -1
+			for j, r := range sc.recs {
+				if fmt.Sprintf("%x", r.raw) == cks[i].val {
+					cks[i].rec = j
+				}
+			}
+		}
+		reqs := []string{}
+		monOK, msg, key := true, "", ""
+		classes := map[string]bool{"reload": true, "reload-" + sc.name: true}
+		steps := []string{}
+		dropped := false
+		for n, k := range cks {
+			c := guarded[(n+len(sc.recs))%len(guarded)]
+			q := c11Req{method: "GET", path: "/control/probe"}
+			if c.method != "" {
+				q.method = c.method
+			}
+			if q.method != "GET" {
+				q.ctype, q.body = "application/json", 1
+			}
+			if c.name == "static" {
+				q.path = "/"
+			}
+			c12AlignSecond()
+			now := time.Now().Unix()
+			wd.ran, wd.locked, wd.seenMethod = false, false, ""
+			var hd http.Handler
+			if c.wrap != nil {
+				hd = c.wrap(wd.handler)
+			} else {
+				globalContext.mux = http.NewServeMux()
+				httpRegister(c.method, q.path, wd.handler)
+				hd = globalContext.mux
+			}
+			rec := httptest.NewRecorder()
+			req := c11Build(q)
+			req.AddCookie(&http.Cookie{Name: sessionCookieName, Value: k.val})
+			hd.ServeHTTP(rec, req)
+			if time.Now().Unix() != now {
+				dropped = true
+				break
+			}
+			status, loc := rec.Code, c11LocClass(rec.Header().Get("Location"))
+			// the request as Gallina: c11CoqReq with the cookie put in
+			rq := strings.Replace(c11CoqReq(q, true), "r_cookie := CNone", "r_cookie := "+vfApp("CTok", vfBytes(k.val)), 1)
+			reqs = append(reqs, "("+strings.Join([]string{c11EnvCoq(c11Env{users: true}, true, now, ttl, q), c.coq, rq,
+				c11Obs(wd.ran, wd.locked, status, loc, c11STable(sc.a))}, ", ")+")")
+			own := "no stored session has this cookie as its token"
+			live := false
+			if k.rec >= 0 {
+				r := sc.recs[k.rec]
+				live = int64(r.expire) > sc.now0 && int64(r.expire) > now
+				own = fmt.Sprintf("its own session (user %q) was stored with expiry %d = start %+d s", r.user, r.expire, int64(r.expire)-sc.now0)
+				// (a refreshed expiry only moves later: a session that was live at a request stays live for this check)
+			}
+			steps = append(steps, fmt.Sprintf("%s %s cookie %s at %d -> %d ran=%v", q.method, q.path, k.val, now, status, wd.ran))
+			if wd.ran && !live && monOK {
+				monOK, key = false, "c11-reloaded-expired-cookie"
+				msg = fmt.Sprintf("sessions.db held %s; the process started at %d (InitAuth -> loadSessions); %s %s with cookie %s=%s at %d reached the handler behind %s (status %d), but %s: the handler ran for a request whose session has run out",
+					c11RecsDesc(sc.recs), sc.now0, q.method, q.path, sessionCookieName, k.val, now, c.name, status, own)
+			}
+			switch {
+			case k.rec >= 0 && !live && !wd.ran && sc.recs[k.rec].off == c11SoonOff && int64(sc.recs[k.rec].expire) > sc.now0:
+				classes["reload-own-expired-refused"] = true
+				for _, r2 := range sc.recs {
+					if int64(r2.expire) > now {
+						classes["reload-expired-next-to-live"] = true
+					}
+				}
+			case k.rec >= 0 && live && wd.ran:
+				classes["reload-live-accepted"] = true
+			case k.rec < 0 && !wd.ran:
+				classes["reload-unknown-refused"] = true
+			}
+		}
+		if dropped {
+			out.Class("reload-discarded-second-boundary")
+			continue
+		}
+		recItems := make([]string, len(sc.recs))
+		for j, r := range sc.recs {
+			recItems[j] = vfPair(vfBytes(r.raw), vfPair(vfBytes(r.user), vfN(uint64(r.expire))))
+		}
+		cl := []string{}
+		for k := range classes {
+			cl = append(cl, k)
+		}
+		sort.Strings(cl)
+		out.Emit(vfCase{
+			Coq: vfApp("C11.CReload", vfList("bytes * (bytes * N)", recItems), vfN(uint64(sc.now0)), sc.load,
+				vfList("env * C11.chain_sel * request * C11.obs", reqs)),
+			Nontrivial: classes["reload-own-expired-refused"] || classes["reload-unknown-refused"],
+			MonitorOK:  monOK, MonitorMsg: msg, FindingKey: key, Classes: cl,
+			Desc: map[string]any{"kind": "start-up with a populated sessions.db", "scenario": sc.name, "stored": c11RecsDesc(sc.recs),
+				"started_at": sc.now0, "requests": steps},
+		})
+	}
+}
+
+func c11RecsDesc(recs []c11Rec) string {
+	items := make([]string, len(recs))
+	for i, r := range recs {
+		items[i] = fmt.Sprintf("{token %x user %s expiry %d (T0%+d)}", r.raw, r.user, r.expire, r.off)
+	}
+	return "[" + strings.Join(items, " ") + "]"
+}
+
+func c11ReloadCases(out *vfOut, wd *c11World, rnd *vfRand, chains []c11Chain) {
+	oldAuth, oldMux := globalContext.auth, globalContext.mux
+	defer func() { globalContext.auth, globalContext.mux = oldAuth, oldMux }()
+	const soon, live, dead = c11SoonOff, 3600, -5
+	rec := func(raw, user string, off int64) c11Rec { return c11Rec{raw: raw, user: user, off: off} }
+	mk := func() []*c11Scen {
+		return []*c11Scen{
+			// the near-expiry token sorts before / after the long-lived one (bbolt iterates in key order)
+			{name: "soon-then-live", recs: []c11Rec{rec("\x00\x01", c12User, soon), rec("\xff\x01", "second", live)}},
+			{name: "live-then-soon", recs: []c11Rec{rec("\x00\x02", "second", live), rec("\xff\x02", c12User, soon)}},
+			{name: "soon-live-soon", recs: []c11Rec{rec("\x10\x03", c12User, soon), rec("\x20\x03", c12User, live), rec("\x30\x03", "second", soon)}},
+			{name: "soon-alone", recs: []c11Rec{rec("\x11\x04", c12User, soon)}},
+			{name: "dead-then-live", recs: []c11Rec{rec("\x01\x05", c12User, dead), rec("\x02\x05", c12User, live)}},
+			{name: "soon-then-dead", recs: []c11Rec{rec("\x01\x06", c12User, soon), rec("\x02\x06", "second", dead)}},
+			{name: "soon-live-live", recs: []c11Rec{rec("\x01\x07", c12User, soon), rec("\x02\x07", c12User, live), rec("\x03\x07", "second", 86400 * 30)}},
+			{name: "live-live", recs: []c11Rec{rec("\x01\x08", c12User, live), rec("\x02\x08", "second", live + 1)}},
+			{name: "empty", recs: nil},
+		}
+	}
+	scens := mk()
+	nr := out.Scale(8, 24)
+	for i := 0; i < nr; i++ {
+		k := 2 + rnd.Intn(4)
+		sc := &c11Scen{name: "random"}
+		used := map[string]bool{}
+		for len(sc.recs) < k {
+			raw := string([]byte{byte(rnd.Intn(256)), byte(rnd.Intn(4))})
+			if used[raw] {
+				continue
+			}
+			used[raw] = true
+			sc.recs = append(sc.recs, rec(raw, vfPick(rnd, []string{c12User, "second"}), vfPick(rnd, []int64{soon, soon, live, live, dead, 86400, 1})))
+		}
+		scens = append(scens, sc)
+	}
+	c11ReloadBatch(out, wd, scens, chains, rnd)
+	if out.Thorough() {
+		for b := 0; b < 3; b++ {
+			more := []*c11Scen{}
+			for i := 0; i < 30; i++ {
+				k := 2 + rnd.Intn(6)
+				sc := &c11Scen{name: "random"}
+				used := map[string]bool{}
+				for len(sc.recs) < k {
+					raw := string([]byte{byte(rnd.Intn(256)), byte(rnd.Intn(256))})
+					if used[raw] {
+						continue
+					}
+					used[raw] = true
+					sc.recs = append(sc.recs, rec(raw, vfPick(rnd, []string{c12User, "second"}), vfPick(rnd, []int64{soon, soon, live, live, dead, 86400, 1})))
+				}
+				more = append(more, sc)
+			}
+			c11ReloadBatch(out, wd, more, chains, rnd)
+		}
+	}
+}
+
 func TestVerifC11(t *testing.T) {
 	out := vfOpen(t, "C11")
 	defer out.Close()
@@ -1136,6 +1621,57 @@ func TestVerifC11(t *testing.T) {
 	// --- round 3: findUser / handleLogin / basic auth on account lists
 	c11FindCases(out, wd, rnd)
 
+	// --- round 4 (H): the method token.  net/http accepts any token as a
+	// method and the mux patterns carry none, so the only method gate is
+	// ensure's comparison.  Behind every chain with a gate (httpRegister x 4,
+	// login, install-get, install-post): the declared method, the empty
+	// string, and other spellings of the declared method (case variants
+	// post / Post / pOST, POSTX, POS, PATCH, CONNECT, another registered
+	// method) x content types (text/plain, JSON, none, Application/JSON; with
+	// and without a body) WITH valid credentials (a valid cookie; right basic
+	// credentials), so that authentication does not answer first; and once
+	// without credentials.  Constructed, seed-independent.
+	type ctb struct {
+		ct   string
+		body int
+	}
+	gateFull := []ctb{{"text/plain", 1}, {"application/json", 1}, {"", 1}, {"Application/JSON", 1}, {"", 0}, {"text/plain", 0}}
+	gated := []c11Chain{}
+	for _, mod := range []bool{true, false} { // the state-changing ones first
+		for _, c := range chains {
+			if c.method != "" && c11Modifying(c.method) == mod {
+				gated = append(gated, c)
+			}
+		}
+	}
+	for _, c := range gated {
+		envs := []c11Env{normal}
+		if strings.HasPrefix(c.name, "install") {
+			envs = []c11Env{{firstRun: true}, {users: true, firstRun: true}}
+		}
+		vs := c11MethodVariants(c.method)
+		for _, e := range envs {
+			for mi, m := range append([]string{c.method}, vs...) {
+				cts := gateFull
+				if mi > 3 {
+					cts = gateFull[:2]
+				}
+				for _, cb := range cts {
+					for _, cred := range []c11Req{{cookie: 3}, {basic: 2}} {
+						q := cred
+						q.method, q.path, q.ctype, q.body = m, ctl, cb.ct, cb.body
+						wd.probe(out, c, e, q)
+					}
+				}
+				wd.probe(out, c, e, c11Req{method: m, path: ctl, ctype: "text/plain", body: 1})
+			}
+			wd.probe(out, c, e, c11Req{method: "", path: ctl, ctype: "text/plain", body: 1, cookie: 3})
+		}
+	}
+
+	// --- round 4 (G): start-up with a populated sessions.db
+	c11ReloadCases(out, wd, rnd, chains)
+
 	// --- start-up: every state of sessions.db x users configured or not x
 	// credential shapes, behind httpRegister(POST), httpRegister(GET) and the
 	// static chain
@@ -1175,6 +1711,11 @@ func TestVerifC11(t *testing.T) {
 		}
 		if c.method != "" && rnd.Chance(2, 3) {
 			q.method = c.method
+		} else if c.method != "" && rnd.Chance(1, 2) {
+			q.method = vfPick(rnd, c11MethodVariants(c.method))
+			if rnd.Chance(1, 2) {
+				q.ctype = vfPick(rnd, []string{"text/plain", "Application/JSON", "application/json"})
+			}
 		}
 		if c.wrap != nil && rnd.Chance(1, 2) {
 			q.path = vfPick(rnd, paths)
@@ -1408,12 +1949,14 @@ func TestVerifC11(t *testing.T) {
 	globalContext.mux = http.NewServeMux()
 	probeRan := false
 	seen := map[string]bool{}
+	regMethod := map[string]string{}
 	for _, rt := range routes {
 		if rt.Kind != "ViaRegister" || rt.Method == "" || seen[rt.Pattern] {
 			continue
 		}
 		seen[rt.Pattern] = true
-		httpRegister(rt.Method, rt.Pattern, func(w http.ResponseWriter, _ *http.Request) { probeRan = true; w.WriteHeader(http.StatusOK) })
+		regMethod[rt.Pattern] = rt.Method
+		httpRegister(rt.Method, rt.Pattern, func(w http.ResponseWriter, r *http.Request) { probeRan = true; wd.handler(w, r) })
 	}
 	globalContext.mux.Handle("/", withMiddlewares(http.HandlerFunc(func(w http.ResponseWriter, _ *http.Request) { probeRan = true; w.WriteHeader(299) }),
 		gziphandler.GzipHandler, optionalAuthHandler, postInstallHandler))
@@ -1454,4 +1997,68 @@ func TestVerifC11(t *testing.T) {
 			}
 		}
 	}
+
+	// (2b) round 4 (H): every method-bound route of the table, registered with
+	// its declared method through the real httpRegister (allMux), requested
+	// WITH a valid cookie and a text/plain body under other spellings of its
+	// method; then under its own method with text/plain and with JSON.  The
+	// model runs the chain of httpRegister for the declared method.
+	pats := make([]string, 0, len(regMethod))
+	for p := range regMethod {
+		pats = append(pats, p)
+	}
+	sort.Strings(pats)
+	for _, p := range pats {
+		m := regMethod[p]
+		c := c11Chain{name: "route " + m, method: m, coq: vfApp("C11.KRegister", vfBytes(m)), mux: allMux}
+		vs := c11MethodVariants(m)
+		send := append([]string{}, vs[:4]...)
+		if out.Thorough() {
+			send = append(send, vs[4:]...)
+		} else {
+			send = append(send, vs[4+rnd.Intn(len(vs)-4)])
+		}
+		for _, v := range send {
+			wd.probe(out, c, normal, c11Req{method: v, path: p, ctype: "text/plain", body: 1, cookie: 3})
+		}
+		wd.probe(out, c, normal, c11Req{method: m, path: p, ctype: "text/plain", body: 1, cookie: 3})
+		wd.probe(out, c, normal, c11Req{method: m, path: p, ctype: "application/json", body: 1, cookie: 3})
+	}
+	// (2c) the REAL registrations (real handlers) with a valid cookie, a
+	// text/plain body and a case variant of the declared method: 405 and
+	// nothing else (reaching a real handler is judged from the outside)
+	for _, rt := range routes {
+		var mux *http.ServeMux
+		what, declared, preInstall := "", rt.Method, false
+		for _, w := range rt.Chain {
+			if w.Kind == "Ensure" {
+				declared = w.Arg
+			}
+			if w.Kind == "PreInstall" {
+				preInstall = true // 403 once installed, whatever the method; the install mux is another one
+			}
+		}
+		switch {
+		case rt.Kind == "Unresolved" || declared == "" || preInstall || strings.Contains(rt.Pos, "_windows.go") || rt.Pattern == "/control/update":
+			continue
+		case strings.Contains(rt.Func, "/internal/home."):
+			mux, what = homeMux, "home-real-method"
+		case rt.Kind == "ViaRegister":
+			if _, ok := made[rt.Method+" "+rt.Pattern]; !ok {
+				continue
+			}
+			mux, what = pkgMux, "pkg-real-method"
+		default:
+			continue
+		}
+		for _, v := range c11MethodVariants(declared)[:3] {
+			wd.setEnv(normal)
+			wd.resetSessions(wd.auth, uint32(time.Now().Unix()))
+			c11MuxMethod(out, mux, what, c11Req{method: v, path: rt.Pattern, ctype: "text/plain", body: 1, cookie: 3}, rt.Pos, declared)
+		}
+	}
+	// (2d) over the wire: the same mux behind the handler web.start builds
+	// (h2c over limitRequestBody), a real net/http server, request lines
+	// written by hand: what the handlers get as r.Method is the token as sent
+	c11Wire(out, wd, allMux, regMethod, pats, rnd)
 }
